@@ -37,6 +37,7 @@ impl ParsedTemplate {
         let templates = Self::expand_optional_groups(input, 0, input.len())?;
         let templates = templates
             .into_iter()
+            .map(|raw| if raw.is_empty() { vec![b'/'] } else { raw })
             .map(|raw| Self::parse_template(input, &raw))
             .collect::<Result<Vec<_>, _>>()?;
 
@@ -133,12 +134,6 @@ impl ParsedTemplate {
             result
                 .iter_mut()
                 .for_each(|template| template.extend_from_slice(&input[group..end]));
-        }
-
-        for template in &mut result {
-            if template.is_empty() {
-                template.push(b'/');
-            }
         }
 
         Ok(result)
